@@ -141,10 +141,7 @@ func TestC20(t *testing.T) {
 	s := hx.Start(t, "C20")
 	defer s.Finish()
 	// exhaustive grid, partitioned over shards by n; quick: n in 0..512 x m in 1..64 plus a seed-selected band of the full grid
-	maxN, maxM := 512, 64
-	if hx.Thorough() {
-		maxN, maxM = 2048, 300
-	}
+	maxN, maxM := 2048, 300 // [as built] the full grid costs a few seconds on 16 cores, so both tiers enumerate it
 	bandLo := (hx.Seed() * 97) % 1900
 	checks, nt := 0, 0
 	complete := true
@@ -196,7 +193,7 @@ outer:
 	if hx.Thorough() {
 		s.Rec.Extra("exhaustive_subdomain", "all (n, m) with n in 0..2048, m in 1..300, plus the default worker limit for every n")
 	} else {
-		s.Rec.Extra("exhaustive_subdomain", "all (n, m) with n in 0..512, m in 1..64, a seed-selected band of 48 values of n with m in 1..300, plus the default worker limit for every n in 0..2048")
+		s.Rec.Extra("exhaustive_subdomain", "all (n, m) with n in 0..2048, m in 1..300, plus the default worker limit for every n")
 	}
 	c20Part.Run(s, hx.PerShard(hx.Pick(8000, 160000)))
 }
